@@ -123,6 +123,18 @@ def write_config(path, kind, values: dict, sectioned: bool, kebab: bool):
     if kind == "pyproject-nosection":
         body = "[tool.other]\nx = 1\n"
         fname = "pyproject.toml"
+    elif kind.startswith("pyproject:"):
+        # the same table written in other valid TOML: what counts is that the parsed file HAS a tool.flowmark table
+        kv = [f"{key(k)} = {toml_value(v)}" for k, v in values.items()]
+        sp = kind.split(":", 1)[1]
+        body = {"inline": "[tool]\nflowmark = { " + ", ".join(kv) + " }\n",
+                "dotted-under-tool": "[tool]\n" + "".join("flowmark." + x + "\n" for x in kv),
+                "top-dotted": "".join("tool.flowmark." + x + "\n" for x in kv) + "\n[tool.other]\nx = 1\n",
+                "spaces": "[ tool.flowmark ]\n" + "\n".join(kv) + "\n",
+                "spaces-dot": "[tool . flowmark]\n" + "\n".join(kv) + "\n",
+                "quoted": "[tool.\"flowmark\"]\n" + "\n".join(kv) + "\n",
+                "after-other-tools": "[tool.black]\nline-length = 100\n\n[tool.ruff]\nline-length = 100\n\n[tool.flowmark]   # formatter\n" + "\n".join(kv) + "\n"}[sp]
+        fname = "pyproject.toml"
     elif kind == "pyproject-empty-table":
         # the table exists but sets nothing: still THE config file of this directory (the search stops here)
         body = "[tool.other]\nx = 1\n\n[tool.flowmark]\n# width = 100\n"
@@ -205,6 +217,16 @@ class C16(Prop):
                     j += 1
                     if j % nshards == shard:
                         yield {"kind": "search", "cwd": [x for x in (a, c) if x and x != a or x == a and x], "parent": [b] if b else []}
+        spell = ["inline", "dotted-under-tool", "top-dotted", "spaces", "spaces-dot", "quoted", "after-other-tools"]
+        for j, sp in enumerate(spell):
+            if j % nshards == shard:
+                yield {"kind": "search", "cwd": ["pyproject:" + sp], "parent": [".flowmark.toml"]}
+            if (j + 7) % nshards == shard:
+                yield {"kind": "search", "cwd": [], "parent": ["pyproject:" + sp]}
+        # how far up the search goes: the nearest config file 1 .. 40 directory levels above the working directory
+        for j, depth in enumerate([1, 2, 5, 9, 12, 13, 17, 25, 40]):
+            if (j + 3) % nshards == shard:
+                yield {"kind": "search", "cwd": [], "parent": [r.choice([".flowmark.toml", "flowmark.toml", "pyproject.toml"])], "levels_below_parent": depth}
         if shard == 0:
             yield {"kind": "keys"}
 
@@ -368,7 +390,13 @@ class C16(Prop):
             parent = os.path.dirname(work)
             widths = {}
             w = 30
-            order = [".flowmark.toml", "flowmark.toml", "pyproject.toml", "pyproject-empty-table"]
+            order = [".flowmark.toml", "flowmark.toml", "pyproject.toml", "pyproject-empty-table"] + [k for k in case["cwd"] + case["parent"] if k.startswith("pyproject:")]
+            run_in = work
+            if case.get("levels_below_parent"):
+                # the working directory lies that many levels below the directory with the config file
+                run_in = os.path.join(parent, *[f"l{n}" for n in range(case["levels_below_parent"])])
+                os.makedirs(run_in)
+                shutil.copy(os.path.join(work, "probe.md"), os.path.join(run_in, "probe.md"))
             for where, kinds in ((work, case["cwd"]), (parent, case["parent"])):
                 seen_names = set()
                 for k in kinds:
@@ -391,8 +419,8 @@ class C16(Prop):
             eff = effective({}, False, {"width": expect} if expect is not None else None)
             col.case()
             col.mon("search")
-            col.distinct("search", tuple(case["cwd"]), tuple(case["parent"]))
-            rc, out, err = self.main(["probe.md"], work)
+            col.distinct("search", tuple(case["cwd"]), tuple(case["parent"]), case.get("levels_below_parent"))
+            rc, out, err = self.main(["probe.md"], run_in)
             if rc != 0 or out != fm.fmt(PROBE, **{k: eff[k] for k in FORMAT}):
                 seen = [wv for wv in widths.values() if out == fm.fmt(PROBE, **dict({k: DEFAULTS[k] for k in FORMAT}, width=wv))]
                 col.violation("search", "C16/search/wrong-config-file-used", case,
